@@ -70,6 +70,9 @@ def gen(rng, n):
             d = c11.gen_tree(rng, rng.choice([0, 1, 2]), custom_ok=True, fan=3)
             kind, bodyarg = "mime", c11.toks(d)
         c = {"alg": alg, "hc": hc, "bc": bc, "names": names, "subject": subj, "xa": xa, "xb": xb, "sel": sel, "dom": dom, "kind": kind, "body": bodyarg}
+        if i % 5 == 2:
+            # an internationalized address: the only place where octets above 127 stand in a header field as they are
+            c["to"] = rng.choice(["zo\u00eb@y.example".encode(), "Zo\u00eb  K <zo\u00eb@y.example>".encode(), "\u540d@\u4f8b.example".encode()])
         if i % 6 == 5:
             # DkimConfig::default_config: From, Subject, To, Date under simple/relaxed - judged like the explicit configuration of the same content
             c.update({"hc": "s", "bc": "r", "names": NAME_LISTS[0], "default": True})
@@ -80,7 +83,7 @@ def gen(rng, n):
 def line_of(c):
     return "dkim.sign\t%s\t%s\t%s\t%s\t%s\t%s\t%s\t%s\t%s\t%s\t%s" % (
         c["alg"], "d" if c.get("default") else c["hc"], c["bc"], "|".join(hx(n) for n in c["names"]), hx(c["sel"]), hx(c["dom"]), hx(c["subject"]),
-        "!" if c["xa"] is None else hx(c["xa"]), "!" if c["xb"] is None else hx(c["xb"]), c["kind"], c["body"])
+        "!" if c["xa"] is None else hx(c["xa"]), "!" if c["xb"] is None else hx(c["xb"]), c["kind"], c["body"]) + ("\t" + hx(c["to"]) if c.get("to") else "")
 
 
 def split_msg(m):
@@ -162,10 +165,10 @@ def run(ctx):
         for hc in "sr":
             for b1, b2 in (("s", "r"), ("r", "s"), ("r", "r")):
                 for body in rbodies:
-                    for cl in "01":
+                    for cl in "0123":
                         rlines.append("dkim.resign\t%s\t%s\t%s\t%s\t%s\t%s" % (alg, hc, b1, b2, hx(body), cl)); rmeta.append((alg, hc, b1, b2, body, cl))
     if ctx.tier == "quick":
-        keep = sorted(rng.sample(range(len(rlines)), 40))
+        keep = sorted(rng.sample(range(len(rlines)), 72))
         rlines, rmeta = [rlines[k] for k in keep], [rmeta[k] for k in keep]
     for line, meta, r in zip(rlines, rmeta, run_impl(rlines)):
         ctx.count()
@@ -179,7 +182,13 @@ def run(ctx):
         f1 = V.split_fields(hb1)
         nosig = lambda fs: [x for x in fs if not x.lower().startswith(b"dkim-signature:")]
         # (a header map holds one field per name: the new signature takes the place of the old one)
-        if len(sigs) not in (1, 2) or nosig(f2) != nosig(f1) or body2 != body1:
+        edited = meta[5] in "23"
+        if edited:
+            # (the Subject was changed between the two signings: everything else is as it was, and the second signature covers the new text)
+            nosubj = lambda fs: [x for x in nosig(fs) if not x.lower().startswith(b"subject:")]
+            if nosubj(f2) != nosubj(f1) or body2 != body1 or not any(x.startswith(b"Subject: changed after the first signature") for x in f2):
+                obad.append((-1, "signing an edited, already signed message changed something other than DKIM-Signature fields (%r)" % (meta,))); continue
+        elif len(sigs) not in (1, 2) or nosig(f2) != nosig(f1) or body2 != body1:
             obad.append((-1, "signing an already signed message changed something other than DKIM-Signature fields (%r)" % (meta,))); continue
         ok2, why2, _ = V.verify(second, keys(), which=0)
         ok1, why1, _ = V.verify(first, keys())
